@@ -25,9 +25,12 @@ DelLabel(k, fails) ==
   /\ IF fails THEN nFail < MaxFail /\ nFail' = nFail + 1 /\ UNCHANGED <<labels, storedLabels>>
      ELSE labels' = labels \ {k} /\ storedLabels' = labels \ {k} /\ UNCHANGED nFail
   /\ UNCHANGED <<served, stored>>
+(* a leader change: the new leader (here: the same server after resigning) reloads the configuration from storage *)
+LeaderChange == Step /\ served' = stored /\ labels' = storedLabels /\ UNCHANGED <<stored, storedLabels, nFail>>
 AllVals == UNION {Valid[s] \cup Invalid[s] : s \in Sections}
 Next == \/ \E s \in Sections, v \in AllVals, f \in BOOLEAN : Set(s, v, f)
         \/ \E k \in Labels, f \in BOOLEAN : SetLabel(k, f) \/ DelLabel(k, f)
+        \/ LeaderChange
 Spec == Init /\ [][Next]_vars
 AcceptedIsReloaded == stored = served /\ storedLabels = labels
 DomainsRespected == \A s \in Sections : served[s] \notin Invalid[s]
